@@ -54,7 +54,7 @@ LOOPS[K + 'Omega_seq'] = {0: dict(index='k', types={'newseq': 'str'}, invariant=
     'recoded(newseq, self.seq, k, %s)' % (_OM % ('X', 'O'))])}
 
 CONTRACT[K + 'Omega'] = dict(
-    self=mk_sequence(), raises=[], modifies=[], returns='real',
+    self=mk_sequence(), raises=[], modifies=[], returns='real', ghost_locals={'newseq': 'str'},
     ensures=['recoded(local("newseq"), self.seq, self.len, %s)' % (_OM % ('E', 'K')),
              'result == kappa_seq(upper_seq(local("newseq")), length(local("newseq")))'])
 LOOPS[K + 'Omega'] = {0: dict(index='k', types={'newseq': 'str'}, invariant=['recoded(newseq, self.seq, k, %s)' % (_OM % ('E', 'K'))])}
@@ -69,8 +69,11 @@ CONTRACT[K + 'kappa_X'] = dict(
            dict(params={'grp2': 'list[char]'}, requires=['length(grp2) >= 1'],
                 ensures=['recoded(local("newseq"), self.seq, self.len, %s)' % _TWO])],
     raises=[('SequenceException', 'Or(Not(group_valid(grp1)), And(Not(grp2 is None), Not(group_valid(grp2 if grp2 is not None else []))))')],
-    modifies=[], returns='real',
-    ensures=['result == kappa_seq(upper_seq(local("newseq")), length(local("newseq")))'])
+    modifies=[], returns='real', ghost_locals={'newseq': 'str'},
+    ensures=['result == kappa_seq(upper_seq(local("newseq")), length(local("newseq")))',
+             # the same recoding fact as in the cases, in one clause (what a caller of this contract gets to know)
+             '(recoded(local("newseq"), self.seq, self.len, %s) if (grp2 is None or (isinstance(grp2, list) and len(grp2) == 0)) '
+             'else recoded(local("newseq"), self.seq, self.len, %s))' % (_ONE, _TWO)])
 LOOPS[K + 'kappa_X'] = {
     0: dict(index='k', types={'newseq': 'str'}, invariant=['recoded(newseq, self.seq, k, %s)' % _TWO.replace('grp1', 'old(grp1)').replace('grp2', 'old(grp2)')]),
     1: dict(index='k', types={'newseq': 'str'}, invariant=['recoded(newseq, self.seq, k, %s)' % _ONE.replace('grp1', 'old(grp1)')]),
